@@ -551,6 +551,12 @@ def run(chk):
         "net named and_a_b defined after the expression": (["a", "b", "c"], ["o", "p"], ["and_a_b"], ["assign o = (a & b) | c;", "or g(and_a_b, c, a);", "assign p = and_a_b;"],
                                                              {"o": lambda v: (v["a"] and v["b"]) or v["c"], "p": lambda v: v["c"] or v["a"], "and_a_b": lambda v: v["c"] or v["a"]}),
     }
+    # a repeated sub-expression needs a second name (`and_a_b_0`) while a net with a numeric suffix makes another expression's name end
+    # in digits (`and_a_b_1`): the fresh name must be probed against the graph, not counted
+    ns_cases["repeated sub-expression next to a net with a numeric suffix"] = (["a", "b", "b_1", "c", "d"], ["y0", "y1", "y2", "y3"], [],
+                                                                               ["assign y0 = (a & b_1) | c;", "assign y1 = (a & b) ^ c;", "assign y2 = (a & b) | d;", "assign y3 = (a & b) & d;"],
+                                                                               {"y0": lambda v: (v["a"] and v["b_1"]) or v["c"], "y1": lambda v: (v["a"] and v["b"]) != v["c"], "y2": lambda v: (v["a"] and v["b"]) or v["d"],
+                                                                                "y3": lambda v: v["a"] and v["b"] and v["d"]})
     # operand names that join to the same string: the synthetic gate names (`and_a_b_c`) of two different expressions coincide
     ns_cases["operand names joining to one string (and)"] = (["a", "b_c", "a_b", "c"], ["o1", "o2"], [], ["assign o1 = a & b_c;", "assign o2 = a_b & c;"],
                                                              {"o1": lambda v: v["a"] and v["b_c"], "o2": lambda v: v["a_b"] and v["c"]})
@@ -569,5 +575,16 @@ def run(chk):
         except ParseError as ex:
             prob = {"error": str(ex)[:160]}
         chk.ob("C02.N.namespace", name, prob is None, file=FILE, func="_VerilogCircuitGraphTransformer", fact=prob or {}, expect="declared nets keep the meaning the netlist gives them")
+        if name.startswith(("repeated sub-expression", "operand names joining", "the same sub-expression twice")):
+            # ... and with circuit.py's own class under the transformer: the fresh names come from Circuit.uid itself then
+            n_parse += 1
+            try:
+                c = _to_ref(full_parse(PFS, text))
+                prob = None
+                for net, fn in fns.items():
+                    prob = prob or check_function(c, net, ins, fn)
+            except (ParseError, ModelRaise) as ex:
+                prob = {"error": str(ex)[:160]}
+            chk.ob("C02.N.namespace", f"{name}@full-stack", prob is None, file=FILE, func="_VerilogCircuitGraphTransformer", fact=prob or {}, expect="declared nets keep the meaning the netlist gives them")
     chk.floor("model netlists parsed", n_parse, 150)
     chk.extra["netlists"] = n_parse
